@@ -21,7 +21,7 @@ SEEDED = os.path.join(VERIF, "seeded")
 RELATED = {
     "C01": ["C01", "C16", "C06"], "C02": ["C02"], "C03": ["C03", "C02"], "C04": ["C04"], "C05": ["C05"], "C06": ["C06"], "C07": ["C07"],
     "C08": ["C08"], "C09": ["C09"], "C10": ["C10"], "C11": ["C11"], "C12": ["C12"], "C13": ["C13", "C15"], "C14": ["C14", "C15"],
-    "C15": ["C15", "C14"], "C16": ["C16"], "C17": ["C17", "C06"], "C18": ["C18"],
+    "C15": ["C15", "C14"], "C16": ["C16", "C15"], "C17": ["C17", "C06"], "C18": ["C18"],
 }
 
 
